@@ -9,9 +9,11 @@ import (
 	"log"
 	"net/http"
 	"net/http/httptest"
+	"net/url"
 	"os"
 	"reflect"
 	"runtime"
+	"runtime/debug"
 	"sort"
 	"strings"
 	"sync"
@@ -92,7 +94,7 @@ type c38Route struct {
 	Method  string
 	Path    string
 	Body    string
-	Stream  bool // handler streams until the request context ends: use a cancelled context
+	Stream  bool // handler may stream until the client hangs up: served in a goroutine, cancelled once it blocks
 	Known   bool // the harness knows a request that a live session gets a 2xx for
 }
 
@@ -304,28 +306,45 @@ func (s *c38Sys) addr(ip string) string {
 }
 
 func (s *c38Sys) serve(method, path, body string, cookie *string, remote string, stream bool) (rr *httptest.ResponseRecorder, panicked any) {
-	var rd io.Reader
-	if body != "" {
-		rd = strings.NewReader(body)
+	// a server-side request built by hand (httptest.NewRequest parses a serialised request
+	// through a fresh 4 KiB bufio.Reader, which dominated the replay cost)
+	u, err := url.ParseRequestURI(path)
+	if err != nil {
+		panic("HARNESS-ERROR bad path " + path)
 	}
-	req := httptest.NewRequest(method, path, rd)
-	req.RemoteAddr = remote
+	req := &http.Request{Method: method, URL: u, Proto: "HTTP/1.1", ProtoMajor: 1, ProtoMinor: 1, Header: http.Header{},
+		Body: http.NoBody, Host: "console.test", RequestURI: path, RemoteAddr: remote}
 	if body != "" {
+		req.Body = io.NopCloser(strings.NewReader(body))
+		req.ContentLength = int64(len(body))
 		req.Header.Set("Content-Type", "application/json")
 	}
 	if cookie != nil {
 		req.Header.Set("Cookie", sessionCookieName+"="+*cookie)
 	}
-	if stream {
-		ctx, cancel := context.WithCancel(req.Context())
-		cancel()
-		req = req.WithContext(ctx)
-	}
+	req = req.WithContext(context.Background())
 	rr = httptest.NewRecorder()
-	func() {
+	if !stream {
+		func() {
+			defer func() { panicked = recover() }()
+			s.h.ServeHTTP(rr, req)
+		}()
+		return rr, panicked
+	}
+	// possibly streaming handler: run it in the bubble, wait until it has finished or is
+	// durably blocked (waiting for its ticker / the client), then hang up. synctest.Wait does
+	// not advance the virtual clock.
+	ctx, cancel := context.WithCancel(req.Context())
+	req = req.WithContext(ctx)
+	done := make(chan struct{})
+	go func() {
+		defer close(done)
 		defer func() { panicked = recover() }()
 		s.h.ServeHTTP(rr, req)
 	}()
+	synctest.Wait()
+	cancel()
+	<-done
 	return rr, panicked
 }
 
@@ -495,6 +514,26 @@ func (s *c38Sys) apply(e c38Ev) {
 	}
 }
 
+// sweep closes every replay: every protected route is requested with no cookie, an unknown
+// token and every token issued so far, with the same oracle as a req event. It shows side
+// effects of the last event (for instance of a request) on the requests that follow it, which
+// state merging would otherwise hide.
+func (s *c38Sys) sweep() {
+	cookies := []c38Ev{{C: "none"}, {C: "garbage"}}
+	for i := range s.toks {
+		cookies = append(cookies, c38Ev{C: "tok", T: i})
+	}
+	for _, r := range s.cfg.routes {
+		for _, c := range cookies {
+			s.apply(c38Ev{K: "req", R: r.Pattern, C: c.C, T: c.T})
+			if len(s.viol) > 0 {
+				s.viol[0].Detail = "(closing sweep after the history: " + c38Ev{K: "req", R: r.Pattern, C: c.C, T: c.T}.String() + ") " + s.viol[0].Detail
+				return
+			}
+		}
+	}
+}
+
 // canon: canonical key of the model state (relative times only).
 func (s *c38Sys) canon() string {
 	now := time.Now()
@@ -583,6 +622,10 @@ func c38Replay(t *testing.T, cfg c38Cfg, hist []c38Ev) (res c38Result) {
 			res.obs = append(res.obs, s.obs)
 		}
 		res.viol = s.viol
+		if len(res.viol) == 0 {
+			s.sweep()
+			res.viol = s.viol
+		}
 		res.canon = s.canon()
 		res.ntoks = len(s.toks)
 	})
@@ -597,10 +640,11 @@ type c38Node struct {
 func TestVerifC38(t *testing.T) {
 	rep := vh.New(t, "C38")
 	defer rep.Finish()
+	defer debug.SetGCPercent(debug.SetGCPercent(800)) // replays allocate a lot of short-lived garbage
 	cfg := c38ReadCfg(t)
 	rep.Rule = "states = canonical model states (issued tokens: live with remaining lifetime / expired / logged out / issued by a failed login; accepted login attempts per address within the window, as ages) reached by breadth-first search over event histories; every transition is one replay of the whole history on a fresh NewMux in its own synctest bubble; the oracle runs on the last event. signature = observation of the transition (event class, model status of the cookie, route, status code); non-trivial = the request/logout carried a token that was issued earlier (live, expired, logged out), or a login was answered 429"
 	rep.Assumptions = []string{
-		"states with equal model keys are merged: the implementation's state is assumed to be a function of the model state (request events lead back to the same key and are not expanded further)",
+		"states with equal model keys are merged: the implementation's state is assumed to be a function of the model state (request events lead back to the same key and are not expanded further); every replay, whatever its last event, is closed by a sweep of all protected routes x {no cookie, unknown token, every issued token} under the same oracle, so an effect of any event on the immediately following requests is observed",
 		"a request is 'answered' when the status is 2xx (streaming routes are called with an already cancelled context: 200 with no events), 'rejected' otherwise",
 		"at the exact expiry instant either answer is accepted; sliding window = half-open interval of the configured length",
 		"protected = every registered pattern under /ui/api/ except /ui/api/auth/*; LFS handlers enabled with an in-process fake S3 transport",
